@@ -159,7 +159,9 @@ def exctab_entries(draw):
     out = []
     for _ in range(n):
         s = draw(st.sampled_from(VARINT_EDGES + [3, 10]))
-        ln = draw(st.sampled_from([0, 1, 2, 5, 63, 64, 65, 300, 4096]))
+        # (no zero-length ranges: no compiler emits one, and 3.11/3.12's dis and 3.13's disagree on whether the handler
+        # of an empty range is a jump target)
+        ln = draw(st.sampled_from([1, 1, 2, 5, 63, 64, 65, 300, 4096]))
         t = draw(st.sampled_from(VARINT_EDGES + [7]))
         depth = draw(st.sampled_from([0, 1, 2, 31, 32, 33, 2048]))
         out.append([s, ln, t, depth, draw(st.booleans())])
